@@ -1,6 +1,193 @@
-//! C03 — not built yet.
+//! C03 — size-limited encoding.  Stage 1: the size-limited buffer, `place`/`replace`, `emit_iter`
+//! and its `Rollback`.  Case lines are encoder scripts (see `encscript.rs`) shaped like
+//! `emit_message_parts`: a limit, a header place, sections written with `emit_iter` whose items are
+//! record-shaped op groups, the header back-patch; plus raw primitive scripts under tiny limits.
+//! Oracles (independent of the model): the buffer never grows past the limit in force; after
+//! `NotAllRecordsWritten{count}` the buffer equals, byte for byte, the one obtained by emitting only
+//! the first `count` items (the rolled-back record leaves no trace); surviving names still decode.
 use crate::common::*;
+use crate::props::encscript::{self, *};
 
-pub fn run(_o: &Opts, rec: &mut Recorder) {
-    rec.rule = "stub".into();
+fn nontrivial(v: &Verdict) -> bool {
+    v.log.n_emax + v.log.n_naw >= 1
+}
+
+pub fn exec(line: &str, rec: &mut Recorder) {
+    encscript::exec(line, rec, nontrivial)
+}
+
+const LABELS: &[&str] = &["a", "bb", "Www", "example", "EXAMPLE", "com", "org", "x", "mail", "ns1"];
+
+fn gen_name(r: &mut Rng) -> String {
+    let k = r.below(5) as usize;
+    let labels: Vec<Vec<u8>> = (0..k).map(|_| r.pick(LABELS).as_bytes().to_vec()).collect();
+    name_from(&labels).unwrap_or_else(|| "F:".into())
+}
+
+fn rdata_ops(r: &mut Rng, out: &mut Vec<String>) {
+    match r.below(7) {
+        0 => out.push(format!("sl:{}", hex(&r.bytes(4)))),
+        1 => out.push(format!("rd:s:{}", gen_name(r))),
+        2 => {
+            out.push(format!("u16:{}", r.below(100)));
+            out.push(format!("rd:s:{}", gen_name(r)));
+        }
+        3 => {
+            for _ in 0..r.range(1, 3) {
+                let k = r.below(40) as usize;
+                out.push(format!("cd:{}", hex(&r.bytes(k))));
+            }
+        }
+        4 => {
+            out.push(format!("sl:{}", hex(&r.bytes(6))));
+            out.push(format!("rd:o:{}", gen_name(r)));
+        }
+        5 => {
+            // SOA-like: two names and five u32
+            out.push(format!("rd:s:{}", gen_name(r)));
+            out.push(format!("rd:s:{}", gen_name(r)));
+            for _ in 0..5 {
+                out.push(format!("u32:{}", r.next() as u32));
+            }
+        }
+        _ => {
+            let k = r.below(70) as usize;
+            out.push(format!("sl:{}", hex(&r.bytes(k))));
+        }
+    }
+}
+
+fn record_item(r: &mut Rng) -> String {
+    let mut out = vec![];
+    out.push(format!("n:d:{}", gen_name(r)));
+    out.push(format!("u16:{}", r.pick(&[1u32, 2, 5, 15, 16, 33, 6])));
+    out.push("u16:1".into());
+    out.push(format!("u32:{}", r.below(100000)));
+    out.push("pl:u".into());
+    rdata_ops(r, &mut out);
+    out.push("rpl".into());
+    match r.below(40) {
+        // an item failing with an error other than MaxBufferSizeExceeded: propagates, no rollback
+        0 => out.insert(r.below(out.len() as u64) as usize, "cdn:300:41".into()),
+        // a nested emit_iter inside the item
+        1 => out.push(format!("iter( u8:1 / sl:{} )", hex(&r.bytes(5)))),
+        _ => {}
+    }
+    out.join(" ")
+}
+
+/// `max` = None: unlimited (used to measure the full length)
+fn message_script(r: &mut Rng) -> Vec<String> {
+    let mut ops = vec![];
+    ops.push("pl:12".to_string());
+    // question
+    if r.chance(4, 5) {
+        ops.push(format!("iter( n:d:{} u16:1 u16:1 )", gen_name(r)));
+    }
+    for _ in 0..r.range(1, 3) {
+        let k = match r.below(6) {
+            0 => 0,
+            1 => r.range(4, 9),
+            _ => r.range(1, 3),
+        };
+        let items: Vec<String> = (0..k).map(|_| record_item(r)).collect();
+        ops.push(format!("iter( {} )", items.join(" / ")));
+    }
+    ops.push(format!("rp:{}", hex(&r.bytes(12))));
+    ops
+}
+
+fn with_limit(ops: &[String], limit: u64, after_header: bool) -> String {
+    let mut v: Vec<String> = ops.to_vec();
+    v.insert(if after_header { 1 } else { 0 }, format!("max:{limit}"));
+    // lowering the limit below an already reserved place is API misuse: `Place::replace` then
+    // asserts instead of returning the error (hickory always sets the limit first)
+    let kind = if after_header && limit < 12 { "encx" } else { "enc" };
+    format!("{kind} e {}", v.join(" "))
+}
+
+fn full_len(ops: &[String]) -> usize {
+    let line = format!("enc e {}", ops.join(" "));
+    let t: Vec<&str> = line.split_whitespace().collect();
+    let Some((_, init, ops)) = parse_line(&t) else { return 64 };
+    let mut app = true;
+    match catch(|| run_script(&init, &ops, &mut app)) {
+        Ok(r) => r.buf.len(),
+        Err(_) => 64,
+    }
+}
+
+fn raw_script(r: &mut Rng) -> String {
+    let mut ops = vec![format!("max:{}", r.below(70))];
+    let mut open = 0;
+    for _ in 0..r.range(1, 25) {
+        match r.below(16) {
+            0 => ops.push(format!("u8:{}", r.below(256))),
+            1 => ops.push(format!("u16:{}", r.below(65536))),
+            2 => ops.push(format!("u32:{}", r.next() as u32)),
+            3 => {
+                let k = r.below(12) as usize;
+                ops.push(format!("sl:{}", hex(&r.bytes(k))))
+            }
+            4 => {
+                let k = r.below(12) as usize;
+                ops.push(format!("cd:{}", hex(&r.bytes(k))))
+            }
+            5 => ops.push(format!("cdn:{}:41", r.pick(&[0u32, 1, 254, 255, 256, 300]))),
+            6 | 7 => {
+                ops.push(format!("pl:{}", r.pick(&["u", "1", "2", "3", "4", "12"])));
+                open += 1;
+            }
+            8 if open > 0 => ops.push("lsp".into()),
+            9 | 10 => ops.push(format!("n:{}:{}", mode_tok(r), gen_name(r))),
+            11 => ops.push(format!("max:{}", r.below(90))),
+            12 => ops.push("trim".into()),
+            13 => {
+                let items: Vec<String> = (0..r.below(4))
+                    .map(|_| {
+                        let k = r.below(9) as usize;
+                        format!("n:d:{} sl:{}", gen_name(r), hex(&r.bytes(k)))
+                    })
+                    .collect();
+                ops.push(format!("iter( {} )", items.join(" / ")));
+            }
+            _ => {
+                let k = r.below(5) as usize;
+                ops.push(format!("sl:{}", hex(&r.bytes(k))))
+            }
+        }
+    }
+    // places are not closed: a `Place` may simply be dropped
+    format!("enc e {}", ops.join(" "))
+}
+
+pub fn run(o: &Opts, rec: &mut Recorder) {
+    rec.rule = "encoder scripts shaped like emit_message_parts (limit, 12-octet header place, question and 1-3 record sections written with emit_iter, items = owner name/type/class/ttl/RDLENGTH place/rdata/back-patch with A, name, MX, TXT, SRV-like, SOA-like and opaque rdata, occasionally an item failing with a non-size error or containing a nested emit_iter), each script run under limits drawn from 0..full length+2 (thorough: for one script in 12 every limit), plus raw primitive scripts under limits 0-90; a case is non-trivial when at least one write was refused for size (MaxBufferSizeExceeded or NotAllRecordsWritten); distinct by case line".into();
+    for l in o.pre_lines.clone() {
+        exec(&l, rec);
+    }
+    rec.corpus_cases = rec.cases.len();
+    if o.replay_only {
+        return;
+    }
+    let mut r = Rng::new(o.seed);
+    let n = o.n(350, 7000);
+    for i in 0..n {
+        let ops = message_script(&mut r);
+        let full = full_len(&ops) as u64;
+        let after_header = r.chance(1, 6);
+        if o.thorough() && i % 12 == 0 && full <= 400 {
+            for limit in 0..=full + 1 {
+                exec(&with_limit(&ops, limit, after_header), rec);
+            }
+        } else {
+            for _ in 0..3 {
+                let limit = if r.chance(1, 8) { r.below(14) } else { r.below(full + 3) };
+                exec(&with_limit(&ops, limit, after_header), rec);
+            }
+        }
+        for _ in 0..2 {
+            exec(&raw_script(&mut r), rec);
+        }
+    }
 }
